@@ -72,7 +72,8 @@ func run(e *harness.Env) {
 			model := map[int]string{} // live objects -> serialized value
 			defined := map[int]bool{} // has any entry (live or free)
 			var revs []pdfw.Revision
-			next := n + 3 // numbers for xref streams / object streams
+			lenNum := n + 3 // an integer object (value 6) that stream-valued objects name as their /Length
+			next := n + 4   // numbers for xref streams / object streams
 			undefinedNum := n + 43
 			lastObjStm := 0
 			inStm := map[int]bool{} // numbers whose newest definition lives in object stream lastObjStm
@@ -83,6 +84,9 @@ func run(e *harness.Env) {
 						pdfw.Obj{Num: catNum, Body: fmt.Sprintf("<< /Type /Catalog /Pages %d 0 R >>", pagesNum)},
 						pdfw.Obj{Num: pagesNum, Body: "<< /Type /Pages /Kids [] /Count 0 >>"})
 					// the two structural objects are looked up like any other (they live in the oldest revision only)
+					rev.Objs = append(rev.Objs, pdfw.Obj{Num: lenNum, Body: "6"})
+					model[lenNum] = "6"
+					defined[lenNum] = true
 					model[catNum] = "<< /Type /Catalog >>"
 					model[pagesNum] = "<< /Type /Pages >>"
 					defined[catNum], defined[pagesNum] = true, true
@@ -109,7 +113,14 @@ func run(e *harness.Env) {
 							val = fmt.Sprintf("<< /Rev %d /Num %d /Cat %d 0 R >>", ri, num, catNum)
 						}
 						o := pdfw.Obj{Num: num, Body: val}
-						if rev.XRef == "stream" {
+						if (ri+k)%3 == 2 {
+							// a stream whose /Length is an indirect reference: loading it re-enters the reader for
+							// the length object while the stream object is still being parsed
+							data := fmt.Sprintf("S%d-%03d", ri%10, num%1000)
+							val = "stream:" + data
+							o = pdfw.Obj{Num: num, Stream: &pdfw.Stream{Data: []byte(data), LengthRef: lenNum}}
+						}
+						if rev.XRef == "stream" && o.Stream == nil {
 							if c.PickS(fmt.Sprintf("p%d.%d", ri, num), "plain", "objstm") == "objstm" {
 								o.InObjStm = true
 								packedAny = true
@@ -187,7 +198,7 @@ func run(e *harness.Env) {
 			for k := 0; k < n; k++ {
 				nums = append(nums, firstData+k)
 			}
-			nums = append(nums, catNum, pagesNum, undefinedNum)
+			nums = append(nums, lenNum, catNum, pagesNum, undefinedNum)
 			var sig, det string
 			var states, trans int
 			psig, pdet := harness.Guard(func() { sig, det, states, trans = explore(path, nums, model) })
@@ -202,7 +213,7 @@ func run(e *harness.Env) {
 				c.Fail(sig, det, map[string][]byte{"pdf": built.Bytes})
 				return
 			}
-			live := len(model) - 2 // data objects only
+			live := len(model) - 3 // data objects only
 			c.Pass(fmt.Sprintf("live=%d/%d states=%d", live, n, states))
 		})
 	}
@@ -321,6 +332,8 @@ func apply(r *reader.Reader, o op, nums []int, looked *[]int) (core.Object, erro
 // render gives a canonical text for a parsed value of the small value alphabet used here.
 func render(o core.Object) string {
 	switch v := o.(type) {
+	case *core.Stream:
+		return "stream:" + string(v.Data)
 	case core.String:
 		return "(" + string(v) + ")"
 	case core.Dict:
@@ -420,6 +433,10 @@ func judge(o op, res core.Object, err error, nums []int, model map[int]string) (
 // sameValue compares ignoring how the /Self reference inside dict values was (or was not) expanded.
 func sameValue(o core.Object, w string) bool {
 	switch v := o.(type) {
+	case *core.Stream:
+		return "stream:"+string(v.Data) == w
+	case core.Int:
+		return fmt.Sprint(int(v)) == w
 	case core.String:
 		return "("+string(v)+")" == w
 	case core.Dict:
